@@ -370,6 +370,11 @@ class ZoneAnalysis:
                 if s['k'] == 'assign' and s['dst']['l'] == 0 and not s['dst'].get('p') and s['rv']['k'] == 'agg' \
                         and s['rv'].get('variant') in ('Ok', 'Some'):
                     accept.append(bi)
+                elif s['k'] == 'assign' and s['dst']['l'] == 0 and not s['dst'].get('p') and s['rv']['k'] == 'use' and s['rv']['op']['k'] in ('copy', 'move'):
+                    accept.append(bi)      # `let r = f(..); r`: what holds here holds for the Ok among the values returned
+            t = blk['term']
+            if t['k'] == 'call' and t['dst']['l'] == 0 and not t['dst'].get('p') and 'from_residual' not in (t.get('callee') or '') and t.get('t') is not None:
+                accept.append(t['t'])      # tail call (`iter.try_fold(..)`): what dominates the return holds for every value returned, Ok included
         if not accept or not body.local_ty(0).startswith(('std::result::Result', 'std::option::Option')):
             return []
         common = None
